@@ -48,12 +48,16 @@ def est_oracle(rep, S, A, proof, pk, cid_s, cust_s, merch_s):
     n_eq = 0
     for i, hits in bound["kappa"].items():
         kap = fld(proof, i)
+        designed = 0
         for pname, j in hits:
             role = lay[pname][j]
             if role not in pubs:
-                return None
+                continue        # coincides with the mask of a hidden slot: not part of R_est; see C14 `revealed-masks`
             want = b.AND(want, S.alg.eq(("at", rsv[pname], ("int", j)), ("add", ("mul", c, pubs[role]), kap)))
             n_eq += 1
+            designed += 1
+        if not designed:
+            return None
     j = lay["state"].index("lock")
     jc = lay["close"].index("lock")
     want = b.AND(want, S.alg.eq(("at", rsv["state"], ("int", j)), ("at", rsv["close"], ("int", jc))))
@@ -111,10 +115,14 @@ def run(rep):
     cid_s, cust_s, merch_s = enc_args(S, fld(arg(3), idx["channel_id"]), fld(arg(3), idx["customer_balance"]), fld(arg(3), idx["merchant_balance"]))
     want = est_oracle(rep, S, A, arg(1), pk, cid_s, cust_s, merch_s)
     if want is None:
+        rep.fail("est-exact", "oracle", "cannot instantiate R_est on the current tree (roles unbound)", site=A.ver.loc())
         return
     lits = S.alg.bdd.as_conjunction(want) or []
     rep.floor("R_est conjuncts", len(lits), 10)
-    if accept == want and want not in (0, 1):
+    from ..alg import conj_normal_form
+    nf_a, nf_w = conj_normal_form(S.alg, accept), conj_normal_form(S.alg, want)
+    same_relation = accept == want or (nf_a is not None and nf_a == nf_w)      # equalities compared by row space
+    if same_relation and want not in (0, 1):
         rep.ok("est-exact", "EstablishProof::verify", sample="accepts iff " + explain(S, want)[:1400])
     else:
         got_l = set(S.alg.bdd.as_conjunction(accept) or [])
@@ -148,7 +156,8 @@ def run(rep):
         cid2, cust2, merch2 = enc_args(S2, arg(3), arg(4), arg(5))
         A2 = A
         want2 = est_oracle(rep, S2, A2, arg(6), pk2, cid2, cust2, merch2)
-        if want2 is not None and acc == want2 and nch == 1:
+        nf2a, nf2w = (conj_normal_form(S2.alg, acc), conj_normal_form(S2.alg, want2)) if want2 is not None else (None, None)
+        if want2 is not None and (acc == want2 or (nf2a is not None and nf2a == nf2w)) and nch == 1:
             rep.ok("initialize", "accept-condition", sample="Some iff R_est(self.key, channel_id, customer_balance, merchant_balance; proof)")
         else:
             rep.fail("initialize", "accept-condition", "initialize accepts under a relation other than R_est over its own arguments (argument order / key / balances swapped?)", site=init.loc())
